@@ -65,6 +65,15 @@ NoVal == <<"", "">>
 Atom(t, s) == <<t, s>>
 IsStrAtom(v) == v[1] = "s"
 
+\* node_path.py join_path: the text of a path
+RECURSIVE PathStr(_)
+PathStr(p) ==
+    IF p = <<>> THEN ""
+    ELSE LET init == PathStr(SubSeq(p, 1, Len(p) - 1))
+             k    == p[Len(p)]
+         IN IF k.t = "i" THEN init \o "[" \o ToString(k.n) \o "]"
+            ELSE init \o (IF init = "" THEN "" ELSE ".") \o k.s
+
 MkNode(k, v, ch) ==
     [k |-> k, v |-> v, ch |-> ch, fn |-> "", ref |-> <<>>,
      pr |-> PrNone, del |-> "N", idel |-> "N", anew |-> "N", ianew |-> "N",
